@@ -124,6 +124,19 @@ func genBuiltinCalls(stream string, seed uint64, perFn int) []GenCase {
 			add(fmt.Sprintf("print(%s, %s); printf(\"%%s|%%d\\n\", %s, %s); return getenv(%s);", Pick(r, argPool), Pick(r, argPool), strArg(r), intArg(r), Pick(r, []string{"\"VERIF_FIXED\"", "\"VERIF_UNSET_VARIABLE\"", "1"})), "print-getenv")
 		}
 	}
+	// patterns that do not compile: a complaint on standard output (nothing anywhere else), false / the subject unchanged
+	for _, pat := range []string{"\"(\"", "/(/", "\"[\"", "\"a{2,1}\"", "\"*\"", "Name + \"(\"", "\"\\\\\""} {
+		add(fmt.Sprintf("return [replace(\"abc\", %s, \"x\"), match(\"abc\", %s)];", pat, pat), "invalid-pattern")
+		add(fmt.Sprintf("if (\"abc\" ~= %s) { return 1; } return replace(Name, %s, \"\");", pat, pat), "invalid-pattern")
+	}
+	// match, ~=, !~ and regexp cases look at every line of the subject, each trimmed of the blanks around it:
+	// multi-line subjects × anchored patterns, in the four places a match is made
+	for _, subj := range []string{"\"disk error \\nrecovered\"", "\"first\\n  indented\"", "\"x\\r\\ny\"", "\"end\\n\"", "\"\\n\"", "\" \\n \"", "\"a \\n b\"", "\"  lead\"", "\"trail  \"",
+		"\"\\tTab\\t\\nnext\"", "\"one\\n\\ntwo\"", "\"\"", "Name"} {
+		for _, re := range []string{"/error$/", "/^indented/", "/^y/", "/x$/", "/^$/", "/^b$/", "/a$/", "/^lead$/", "/^trail$/", "/^Tab$/", "/^next/", "/^two$/", "/r\\nr/", "/^ /", "/ $/"} {
+			add(fmt.Sprintf("s = %s; if (s ~= %s) { rec(1); } if (s !~ %s) { rec(2); } switch (s) { case %s { rec(3); } default { rec(4); } } return match(s, %s);", subj, re, re, re, re), "match-lines")
+		}
+	}
 	return out
 }
 
